@@ -121,3 +121,15 @@ Definition exn_eqb (a b : exn) : bool :=
   end.
 Definition exn_of (v : via) : exn :=
   match v with Direct => XResponseNotAccepted | ViaRun => XFailure | ViaSudo => XAuthFailure end.
+
+(** How [Context.sudo] was set up: prompt, configured password ([sudo.password]) and
+    the [password=] keyword argument (absent / given, possibly None). *)
+Record sudo_info := mkSudo {
+  su_prompt : string;
+  su_cfg_password : option string;
+  su_kw_password : option (option string)
+}.
+
+(** ["{}\n".format(password)] *)
+Definition password_line (p : option string) : string :=
+  (match p with Some s => s | None => "None" end ++ String (ascii_of_nat 10) "")%string.
